@@ -20,7 +20,7 @@ LABELS = ("p", "q", "w", "u")
 PAD_MODES = ("constant", "wrap", "edge")
 OPS = [("neg", 3), ("pos", 1), ("abs", 2), ("add", 4), ("mul", 3), ("mulnum", 2), ("comp", 3), ("lshift", 2), ("diff", 3),
        ("sub", 2), ("dot", 2), ("cross", 1), ("norm", 2), ("orientation", 1), ("integrate", 2), ("fromfield", 3), ("setsub", 2), ("q_meshclose", 1), ("q_fieldclose", 2), ("q_regionin", 1), ("q_aligned", 2),
-       ("setvalid", 5), ("mutatevalid", 4), ("updateconst", 2), ("setarray", 2),
+       ("setvalid", 5), ("mutatevalid", 4), ("updateconst", 2), ("setarray", 2), ("writearray", 3),
        ("selplane", 3), ("selrange", 4), ("getsub", 3), ("getregion", 3), ("pad", 4), ("resample", 2),
        ("h5", 2), ("ovf", 1), ("vtk", 1), ("xarray", 2),
        ("translate", 3), ("scale", 2), ("meshrotate", 2), ("fieldrotate", 5), ("mkfield", 1)]
@@ -79,7 +79,7 @@ def random_scenario(rnd, big=True):
             arr = tuple(tuple(0 for _ in range(nv)) if k in z else arr[k] for k in range(N))
         valid = tuple(rnd.random() < 0.75 for _ in range(N))
         return {"k": "field", "mesh": mid, "nv": nv, "arr": arr, "valid": valid, "shape": tuple(n), "lab": lab, "map": mp,
-                "vx": True, "mx": True, "vo": fid}
+                "vx": True, "mx": True, "vo": fid, "ao": fid}
 
     heap = {1: reg(lo, hi)}
     hm, mid = submesh(1, 2)
@@ -222,6 +222,8 @@ class Driver:
                 return self.call(op, x, ip=True, a={"c": rnd.choice([-2, 3, 0, 7])})
             if op == "setarray":
                 return self.call(op, x, ip=True, a={"p": rnd.randint(1, 9)})
+            if op == "writearray":
+                return self.call(op, x, ip=True, a={"cell": rnd.randint(1, N), "v": rnd.choice([7, -3, 0, 12])})
             if op == "selplane":
                 if nd < 2:
                     continue
